@@ -144,7 +144,11 @@ def u_fit(center=False, precomputed_kernel=False, stale=False):
     return Unit(f"KernelPCovR[{'precomputed' if precomputed_kernel else 'named-kernel'},center={center}{',refit-after-center=True' if stale else ''}]", body, funcs=funcs,
                 functions=[KP + '.fit', KP + '._fit', KP + '._get_kernel', KP + '.transform', KP + '.predict', KP + '.score'])
 
-UNITS = [lambda: u_fit(False), lambda: u_fit(True), lambda: u_fit(False, True), lambda: u_fit(True, True), lambda: u_fit(False, False, True)]
+from contracts import decomp as D
+_base_extend_ext = extend_ext
+def extend_ext(ext):
+    _base_extend_ext(ext); D.extend_ext(ext)
+UNITS = [lambda: u_fit(False), lambda: u_fit(True), lambda: u_fit(False, True), lambda: u_fit(True, True), lambda: u_fit(False, False, True)] + list(D.KUNITS)
 RT = True
 TRUSTED = ['matrix layer (see C03)', 'assumed contracts (conformance-tested at run time): pairwise_kernels(X, Y) = KERN(X, Y) depends only on the two sample sets and the kernel parameters, precomputed returns X; spectral decomposition as in C03; KernelNormalizer.fit_transform/transform = CENT (C12), transform needs n_train columns; lstsq = pinv; check_krr_fit returns a fitted kernel ridge (dual_coef_)',
            'linear kernel = sample-space PCovR and mixing=1 = kernel PCA: both reduce to T = K~ U S^-1/2 with the same leading eigenpairs (proved characterisation) + uniqueness up to sign (cited); KRR primal-dual relation assumed; numerical agreement bounded (runtime)']
